@@ -4,8 +4,11 @@ package main
 
 import (
 	"context"
+	"encoding/base64"
 	"errors"
 	"fmt"
+	"os"
+	"path/filepath"
 	"strings"
 
 	"github.com/gittuf/gittuf/internal/policy"
@@ -33,13 +36,48 @@ func aerrEnum(err error) string {
 	return "(Some AEOther)"
 }
 
+// c12Controller creates a real controller repository with an applied policy and returns its location.
+func c12Controller(c *runCtx) (string, error) {
+	gi, dir, err := newRealRepo(c, "c12-controller", true)
+	if err != nil {
+		return "", err
+	}
+	md, err := (&wPolicy{RootVersion: 1, RootKeys: []int{1}, RootThr: 1, RootSigners: []int{1}}).stateMetadata()
+	if err != nil {
+		return "", err
+	}
+	rsl.VerifResetCache()
+	defer rsl.VerifResetCache()
+	if err := (&policy.State{Metadata: md}).Commit(gi, "controller policy", true, false); err != nil {
+		return "", err
+	}
+	return dir, policy.Apply(context.Background(), gi, false)
+}
+
 func runC12(c *runCtx) error {
 	c.coqImport = "C12Check"
 	c.caseType = "c12case"
 	c.checkFn = "c12_check"
 	r := c.rng
-	skippedDiverged := 0
-	defer func() { c.extra["sequences_skipped_because_staging_diverged"] = skippedDiverged }()
+	skippedDiverged, nCtl := 0, 0
+	controllerDir := ""
+	defer func() {
+		c.extra["sequences_skipped_because_staging_diverged"] = skippedDiverged
+		c.extra["stagings_with_unverifiable_controller_metadata"] = nCtl
+		if controllerDir != "" {
+			os.RemoveAll(controllerDir)
+		}
+	}()
+	// API level first: one case in forty
+	nApi := c.n / 40
+	if nApi < 8 {
+		nApi = 8
+	}
+	for ci := 0; ci < nApi && len(c.cases) < c.n; ci++ {
+		if err := c12ApiCase(c, ci); err != nil {
+			return err
+		}
+	}
 	for len(c.cases) < c.n {
 		m := newMemStore()
 		rsl.VerifResetCache()
@@ -84,14 +122,43 @@ func runC12(c *runCtx) error {
 					}
 					np.Globals = nil
 					np.Controllers = nil
+					// a staged tree with controller metadata for a controller repository the root declares, which
+					// cannot be verified: nothing at its location, or a sound controller repository that no
+					// propagation entry of this log vouches for.  Apply must refuse it.
+					ctlOK := true
+					st := &policy.State{}
+					if r.Intn(6) == 0 {
+						loc := filepath.Join(c.outDir, "repos", "c12-no-such-controller")
+						kind += "+controller(absent)"
+						if r.Intn(2) == 0 {
+							if controllerDir == "" {
+								if controllerDir, err = c12Controller(c); err != nil {
+									return
+								}
+							}
+							loc = controllerDir
+							kind = strings.TrimSuffix(kind, "(absent)") + "(unvouched)"
+						}
+						name := "ctl-" + base64.URLEncoding.EncodeToString([]byte(loc))
+						np.DeclaredControllers = [][2]string{{"ctl", loc}}
+						cmd, e := (&wPolicy{RootVersion: 1, RootKeys: []int{1}, RootThr: 1, RootSigners: []int{1}}).stateMetadata()
+						if e != nil {
+							err = e
+							return
+						}
+						st.ControllerMetadata = map[string]*policy.StateMetadata{name: cmd}
+						ctlOK = false
+						nCtl++
+					}
 					cur = np
 					md, e := np.stateMetadata()
 					if e != nil {
 						err = e
 						return
 					}
+					st.Metadata = md
 					prev, _ := m.GetReference(policy.PolicyStagingRef)
-					err = (&policy.State{Metadata: md}).Commit(m, "stage", true, false)
+					err = st.Commit(m, "stage", true, false)
 					tip, _ := m.GetReference(policy.PolicyStagingRef)
 					if err == nil {
 						num[tip.String()] = uint64(len(staged) + 1)
@@ -102,7 +169,7 @@ func runC12(c *runCtx) error {
 						}
 						parents = append(parents, fmt.Sprintf("(%d%%N, %s)", len(staged), par))
 					}
-					op, h = "(AStage "+np.coq()+")", "stage "+kind
+					op, h = "(AStage "+np.coq()+" "+coqBool(ctlOK)+")", "stage "+kind
 				case x < 80:
 					err = policy.Apply(context.Background(), m, false)
 					op, h = "AApply", "apply"
